@@ -125,6 +125,7 @@ func init() {
 		ruleKeySerializers(e, r)
 		ruleKeyCanonicalOrder(e, r)
 		ruleKeyHasStore(e, r)
+		ruleEncodeNotEmptinessConditional(e, r)
 	})
 }
 
@@ -389,9 +390,10 @@ func init() {
 func init() {
 	register("C29", "Tuple and user string encodings round-trip", func(e *Engine, r *Reporter) {
 		ruleTupleConverters(e, r)
+		ruleControlCharsRejectedUnconditionally(e, r)
 	})
 	describe("C29", meta{
-		Decides:    "thin structural part only: the proto<->domain tuple-key converters in pkg/tuple read and assign every field their source and target share; UserProtoToString is total over the three User variants with a failing default and StringToUserProto produces each variant.",
+		Decides:    "thin structural part only: the proto<->domain tuple-key converters in pkg/tuple read and assign every field their source and target share; UserProtoToString is total over the three User variants with a failing default and StringToUserProto produces each variant; every IsValid* scanner applies unicode.IsControl to every rune unconditionally and rejects on a hit.",
 		NotDecided: "round-trip equality and the validity grammar over all strings — value-level, outside this technique.",
 	})
 	techniques["C29"] = "field-coverage (access path) analysis of converters + oneof exhaustiveness"
